@@ -90,17 +90,6 @@ theorem alpha_elision_examples :
 section hexrt
 open Pastel.P
 
-/-- A string without whitespace at either end is untouched by `trim`. -/
-theorem trim_id (a : Char) (mid : List Char) (z : Char) (ha : isWhitespace a = false) (hz : isWhitespace z = false) :
-    trim (a :: (mid ++ [z])) = a :: (mid ++ [z]) := by
-  unfold trim trimStart
-  have h1 : (a :: (mid ++ [z])).dropWhile isWhitespace = a :: (mid ++ [z]) := by
-    rw [List.dropWhile_cons]; simp [ha]
-  rw [h1]
-  have h2 : (a :: (mid ++ [z])).reverse = z :: (mid.reverse ++ [a]) := by simp
-  rw [h2, List.dropWhile_cons]
-  simp [hz]
-
 theorem hexDigit_not_ws : ∀ n : Fin 16, isWhitespace (Fmt.hexDigit n.val) = false := by decide +kernel
 
 /-- **Print → parse for the hex notation, every opaque 8-bit colour at once**: the six digits
@@ -160,5 +149,66 @@ theorem hexString_parses_back (c : Color Float) (h : ((toRgba8 c).alpha == 1.0) 
 
 
 end hexrt
+
+/-! ### Print → parse, `rgb()` notation: formatter, number grammar and parser together, for every
+run of decimal digits (not only the 256 that are printed) -/
+
+section rgbrt
+open Pastel.P
+
+/-- The decimal digits pastel prints for a byte. -/
+def byteDigits (k : Nat) : List Char := (toString k).toList
+
+/-- For every byte: its printed digits are a non-empty run of decimal digits, and Rust's
+`parse::<f64>` of that text is the byte as a float. -/
+theorem byteDigits_spec : ∀ k : Fin 256,
+    byteDigits k.val ≠ [] ∧ (byteDigits k.val).all isDigit = true ∧ digitsVal (byteDigits k.val) = Float.ofNat k.val := by
+  decide +kernel
+
+theorem quantize_byte (r : UInt8) : quantize (Float.ofNat r.toNat / 255.0 : Float) = r := by
+  have := quantize_level_float ⟨r.toNat, r.toNat_lt⟩
+  simp only at this
+  exact UInt8.toNat_inj.mp this
+
+/-- **Print → parse for the `rgb()` notation, every opaque 8-bit colour at once**: the text
+`rgb(R,G,B)` (or `rgb(R, G, B)`) that pastel prints for the bytes `(r, g, b)` is accepted by
+`parse_color` and denotes exactly `from_rgb(r, g, b)`. -/
+theorem rgb_print_parse (r g b : UInt8) (sp : List Char) (hsp : sp = [] ∨ sp = [' ']) :
+    parseColor ('r' :: 'g' :: 'b' :: '(' :: (byteDigits r.toNat ++ ',' :: (sp ++ (byteDigits g.toNat ++ ',' ::
+      (sp ++ (byteDigits b.toNat ++ [')'])))))) = some (fromRgba8 r g b 1.0) := by
+  obtain ⟨nr, dr, vr⟩ := byteDigits_spec ⟨r.toNat, r.toNat_lt⟩
+  obtain ⟨ng, dg, vg⟩ := byteDigits_spec ⟨g.toNat, g.toNat_lt⟩
+  obtain ⟨nb, db, vb⟩ := byteDigits_spec ⟨b.toNat, b.toNat_lt⟩
+  simp only at nr dr vr ng dg vg nb db vb
+  match hA : byteDigits r.toNat, hB : byteDigits g.toNat, hC : byteDigits b.toNat with
+  | [], _, _ => exact absurd hA nr
+  | _ :: _, [], _ => exact absurd hB ng
+  | _ :: _, _ :: _, [] => exact absurd hC nb
+  | a :: as, b' :: bs, c :: cs =>
+    rw [hA] at dr vr; rw [hB] at dg vg; rw [hC] at db vb
+    rw [C01.rgb_digits_meaning a as b' bs c cs sp hsp dr dg db, vr, vg, vb]
+    unfold fromRgbaFloat
+    rw [quantize_byte, quantize_byte, quantize_byte]
+
+
+theorem rgbString_opaque (c : Color Float) (spaces : Bool) (h : (c.alpha == 1.0) = true) :
+    (Fmt.rgbString c spaces).toList =
+      'r' :: 'g' :: 'b' :: '(' :: (byteDigits (toRgba8 c).r.toNat ++ ',' :: ((Fmt.sp spaces).toList ++
+        (byteDigits (toRgba8 c).g.toNat ++ ',' :: ((Fmt.sp spaces).toList ++ (byteDigits (toRgba8 c).b.toNat ++ [')']))))) := by
+  unfold Fmt.rgbString byteDigits
+  simp only [h, if_true, String.toList_append]
+  simp
+
+/-- **What pastel prints as `rgb(…)` for an opaque colour, pastel reads back as exactly the 8-bit
+colour it printed** — for every colour and both spacings. -/
+theorem rgbString_parses_back (c : Color Float) (spaces : Bool) (h : (c.alpha == 1.0) = true) :
+    parseColor (Fmt.rgbString c spaces).toList =
+      some (fromRgba8 (toRgba8 c).r (toRgba8 c).g (toRgba8 c).b 1.0) := by
+  rw [rgbString_opaque c spaces h]
+  apply rgb_print_parse
+  unfold Fmt.sp
+  cases spaces <;> simp
+
+end rgbrt
 
 end Pastel.C02
